@@ -185,7 +185,11 @@ def make_hexdump(case):
     def run(ctx):
         from dissect.cstruct import utils
         data = _mixed(ctx, n, positions, case["fill"])
-        plain = utils.hexdump(data, offset=offset, prefix=prefix, output="string")
+        try:
+            plain = utils.hexdump(data, offset=offset, prefix=prefix, output="string")
+        except Exception as e:  # noqa: BLE001
+            ctx.check("hexdump works for every prefix, offset and data", False, H.classify(e))
+            return
         exp = ref_hexdump(data, offset, prefix)
         got = R.units_of(plain) if plain != "" else []
         ctx.observe("plain", plain)
@@ -234,6 +238,15 @@ def make_dumpstruct(case):
         stripped = strip(col)
         plain = strip(utils.dumpstruct(obj, output="string", color=False, offset=case["fill"]))
         ctx.check("colour changes nothing but the colour codes", stripped == plain)
+        # a field modified after parsing is listed with its current value
+        f0 = cs.test.__fields__[0]
+        if not f0.bits and f0.type.__name__ in ("uint8", "uint16", "uint32"):
+            obj2 = cs.test(raw)
+            setattr(obj2, f0._name, 0x5A)
+            listing = strip(utils.dumpstruct(obj2, output="string", color=False)).split("\n\n", 2)[-1].split("\n")
+            ctx.check("dumpstruct lists the current value of a modified field", f"- {f0._name}: 0x5a" in listing, str(listing[:3]))
+            ctx.check("dumpstruct hex-dumps the current bytes of a modified structure",
+                      strip(utils.dumpstruct(obj2, output="string", color=False)).startswith("\n" + utils.hexdump(obj2.dumps(), output="string") + "\n"))
         # parse form: dumpstruct(type, data)
         out2 = strip(utils.dumpstruct(cs.test, raw, output="string", color=False))
         ctx.check("dumpstruct(type, data) dumps the given bytes", out2.startswith("\n" + utils.hexdump(raw, output="string") + "\n"))
@@ -247,7 +260,7 @@ def cases(tier, seed):  # noqa: F811
     yield from _pack_cases(tier, seed)
     lengths = [0, 1, 2, 7, 8, 9, 15, 16, 17, 31, 32, 33, 40] if tier == "quick" else list(range(0, 41))
     for n in lengths:
-        posets = [[]] if n == 0 else [[0], [n - 1], sorted({0, n // 2, n - 1})]
+        posets = [[]] if n == 0 else [[0], [n - 1], sorted({0, n // 2, n - 1}), []]
         if n > 17:
             posets.append([15, 16, 17])
         for k, positions in enumerate(posets):
@@ -255,7 +268,7 @@ def cases(tier, seed):  # noqa: F811
                 if palette and len(positions) > (1 if tier == "quick" else 2):
                     continue
                 yield {"label": f"hexdump n={n} sym@{positions} palette={palette}", "n": n, "positions": positions,
-                       "offset": [0, 0x1FF0, 16][k % 3], "prefix": ["", "> "][k % 2], "fill": 0x20 + 13 * n, "palette": palette,
+                       "offset": [0, 0x1FF0, 16][k % 3], "prefix": ["", "> ", "{0}} {{x: "][(k + n) % 3], "fill": 0x20 + 13 * n, "palette": palette,
                        "make": "make_hexdump"}
     for text, n in DUMP_DEFS:
         for fill in (1, 0x41):
